@@ -413,6 +413,7 @@ def run(ctx):
     strings_part(ctx, rng, 400 if quick else 20000)
     sim = simdrv.TcpSim(reqgen.argv_of(CFG))
     try:
+        proxy_part(ctx, sim, rng, 4 if quick else 60)       # first: the main loop below runs until the soft budget is used up
         grid = [(d, m, f) for d in (0, 1, 2, 5, 20) for m in (0, 100, 250, 500, 4000) for f in (False, True)]
         k = 0
         while not ctx.expired():
@@ -422,7 +423,6 @@ def run(ctx):
             nops = rng.choice([1, 3, 8, 20, 40] if quick else [1, 3, 8, 20, 40, 80])
             settings = [(0, 0, False)] + (rng.sample(grid, 7) if quick else grid)
             run_list(ctx, sim, rng, nops, settings)
-        proxy_part(ctx, sim, rng, 4 if quick else 300)
     finally:
         sim.stop()
 
